@@ -43,10 +43,12 @@ def norm_real_state(p):
     }
 
 
-def diff(spec, real):
+def diff(spec, real, skip=()):
     s, r = norm_spec_state(spec), norm_real_state(real)
     out = []
     for f in FIELDS:
+        if f in skip:
+            continue
         if f == "jobs":
             if len(s["jobs"]) != len(r["jobs"]):
                 out.append("jobs(len)")
@@ -116,6 +118,12 @@ def replay_one(hist, workers=None, clients=None, channels=None, after_step=None,
 
     d = qsdriver.Driver(workers=workers or qstrace.WORKERS, clients=clients or qstrace.CLIENTS, policy=policy,
                         channels=channels or qstrace.CHANNELS, result_hook=result_hook)
+    # after a restart the outcome counters are free (C18 does not ask for them to be kept or reset)
+    skip = set()
+    _diff = diff
+
+    def diff_(a, b):
+        return _diff(a, b, skip)
     # cut the behaviour into segments: [ops...] then optionally a complete drain
     i = 0
     n = len(hist)
@@ -143,7 +151,7 @@ def replay_one(hist, workers=None, clients=None, channels=None, after_step=None,
                     return {"machinery": "batch of %d ops produced %d events" % (len(ops), len(evs))}
                 pv = hist[i - len(ops) - 1]["st"] if i - len(ops) - 1 >= 0 else None
                 for h, e in zip(ops, evs):
-                    df = diff(h["st"], e["post"])
+                    df = diff_(h["st"], e["post"])
                     if df:
                         if requeues_several(pv, h["last"]):
                             return {"ok": True, "steps": steps_done, "skipped": "free choice"}
@@ -162,7 +170,8 @@ def replay_one(hist, workers=None, clients=None, channels=None, after_step=None,
             if hist[i]["last"]["op"] == "restart":
                 e0 = len(d.events)
                 d.restart()
-                df = diff(hist[i]["st"], d.events[-1]["post"])
+                skip.add("stats")
+                df = diff_(hist[i]["st"], d.events[-1]["post"])
                 if df:
                     return {"step": steps_done, "op": hist[i]["last"], "differs": df,
                             "spec": norm_spec_state(hist[i]["st"]), "real": norm_real_state(d.events[-1]["post"])}
@@ -214,7 +223,7 @@ def replay_one(hist, workers=None, clients=None, channels=None, after_step=None,
                 if (e["k"], e["w"]) != (h["last"]["k"], h["last"]["w"]):
                     return {"step": steps_done, "op": h["last"], "differs": ["delivery order"],
                             "real_event": {x: y for x, y in e.items() if x != "post"}}
-                df = diff(h["st"], e["post"])
+                df = diff_(h["st"], e["post"])
                 if df:
                     if requeues_several(pprev, h["last"]):
                         return {"ok": True, "steps": steps_done, "skipped": "free choice"}
@@ -224,7 +233,7 @@ def replay_one(hist, workers=None, clients=None, channels=None, after_step=None,
             if k != len(real_delivers):
                 return {"step": steps_done, "differs": ["extra delivery in the real run"],
                         "real_events": [{x: y for x, y in e.items() if x != "post"} for e in evs]}
-            df = diff(hist[j]["st"], evs[-1]["post"])
+            df = diff_(hist[j]["st"], evs[-1]["post"])
             if df:
                 return {"step": steps_done, "op": {"op": "drained"}, "differs": df, "spec": norm_spec_state(hist[j]["st"]),
                         "real": norm_real_state(evs[-1]["post"])}
